@@ -253,7 +253,12 @@ impl<'de, 'a> MapAccess<'de> for ScriptMap<'a> {
     type Error = E;
     fn next_key_seed<K: DeserializeSeed<'de>>(&mut self, seed: K) -> Result<Option<K::Value>, E> {
         let g = self.g;
-        if g.want_value.get() != 0 { g.bad.set(1); } // previous value was never taken
+        if g.want_value.get() != 0 {
+            // the previous member's value was never taken: a real format is now positioned on that value, not on a key;
+            // it reports a syntax error (it also keeps a caller that never consumes values from looping forever)
+            g.bad.set(1);
+            return Err(E { kind: E_HARNESS, field: 255 });
+        }
         g.keys.set(g.keys.get() + 1);
         if self.pos >= self.n { return Ok(None); }
         g.want_value.set(1);
